@@ -473,3 +473,55 @@ def marks(cx, name_or_pos, x, o, out, declared=None):
     elif k == "Alias":
         marks(cx, None, x[2], o, out)
     return out
+
+
+def base_type(a):
+    v = a.get("None")
+    if v is None:
+        v = (a.get("Fixed") or a.get("Var"))[0]
+    return v
+
+
+def type_has_f1(cx, name, seen=None):
+    """can a value of this type contain an inline variable-length opaque field/arm (nF1 > 0)?"""
+    seen = seen or set()
+    if name in seen:
+        return False
+    seen = seen | {name}
+    t = cx.types.get(name)
+    if t is None:
+        return False
+    inner = []
+    if "Struct" in t:
+        for f in t["Struct"]["fields"]:
+            a = f["value"]
+            b = base_type(a)
+            if b == "Opaque" and "Fixed" not in a:
+                return True
+            inner.append(b)
+    elif "Union" in t:
+        u = t["Union"]
+        for c in u["cases"] + ([u["default"]] if u["default"] else []):
+            b = base_type(c["value"])
+            if b == "Opaque":
+                return True
+            inner.append(b)
+    elif "Typedef" in t:
+        inner.append(t["Typedef"]["target"])
+    return any(isinstance(b, dict) and type_has_f1(cx, b["Ident"], seen) for b in inner)
+
+
+def spec_has_f1_array(cx):
+    """is there a counted array whose element type can contain an F1 leaf?"""
+    for k, t in cx.types.items():
+        pos = []
+        if "Struct" in t:
+            pos = [f["value"] for f in t["Struct"]["fields"]]
+        elif "Typedef" in t:
+            a = t["Typedef"]["alias"]
+            if "Var" in a:
+                pos = [{"Var": [t["Typedef"]["target"], a["Var"][1]]}]
+        for a in pos:
+            if "Var" in a and isinstance(a["Var"][0], dict) and type_has_f1(cx, a["Var"][0]["Ident"]):
+                return True
+    return False
